@@ -7,6 +7,7 @@ CONSTANTS
 INVARIANT RoundTrip
 INVARIANT Advances
 INVARIANT WeekCycle
+INVARIANT EraShift
 INVARIANT FloorOK
 INVARIANT CeilOK
 INVARIANT RoundOK
